@@ -39,8 +39,8 @@ impl Scenario for ConvergeScenario {
 
     fn runs(&self, tier: Tier) -> u64 {
         match tier {
-            Tier::Quick => 3_000,
-            Tier::Thorough => 60_000,
+            Tier::Quick => 9_000,
+            Tier::Thorough => 240_000,
         }
     }
 
